@@ -13,6 +13,7 @@ import (
 	"sort"
 	"strconv"
 	"strings"
+	"sync"
 	"time"
 
 	"golang.org/x/tools/go/ssa"
@@ -308,39 +309,81 @@ func main() {
 	// vacuity: entry reach of each function + reach of each post obligation
 	vacChecked, vacOK := 0, 0
 	var vacuous []string
-	for _, r := range results {
-		if r.prelude == "" {
-			continue
+	{
+		var wg sync.WaitGroup
+		eopts := opts
+		eopts.timeoutS = 5
+		for _, r := range results {
+			if r.prelude == "" {
+				continue
+			}
+			idx++
+			wg.Add(1)
+			go func(r *fnResult, i int) {
+				defer wg.Done()
+				r.entryVerdict = checkReach(r.entryReach, r.weak, eopts, i)
+			}(r, idx)
 		}
-		idx++
-		r.entryVerdict = checkReach(r.entryReach, r.weak, opts, idx)
-		vacChecked++
-		if r.entryVerdict == "sat" {
-			vacOK++
-		} else if r.entryVerdict == "unsat" {
-			r.obls = append(r.obls, &Obligation{Name: r.name + "/reach/pre", Kind: "reach", Fn: r.name, Verdict: "sat", Props: r.spec.Props,
-				Model: "the preconditions of this function are contradictory: every obligation would be vacuous"})
+		wg.Wait()
+		for _, r := range results {
+			if r.prelude == "" {
+				continue
+			}
+			vacChecked++
+			if r.entryVerdict == "sat" {
+				vacOK++
+			} else if r.entryVerdict == "unsat" {
+				r.obls = append(r.obls, &Obligation{Name: r.name + "/reach/pre", Kind: "reach", Fn: r.name, Verdict: "sat", Props: r.spec.Props,
+					Model: "the preconditions of this function are contradictory: every obligation would be vacuous"})
+			}
 		}
 	}
 	{
-		seen := map[string]string{}
+		// reachability of every return that carries a discharged postcondition (parallel, short timeout)
+		type rjob struct {
+			r     *fnResult
+			reach Term
+			obls  []*Obligation
+			v     string
+		}
+		byKey := map[string]*rjob{}
+		var rjobs []*rjob
 		for _, r := range results {
 			for _, o := range r.obls {
 				if o.Kind != "post" || !hasProp(o.Props, *property) || o.Verdict != "unsat" {
 					continue
 				}
 				key := r.name + o.Reach.S
-				v, ok := seen[key]
-				if !ok {
-					idx++
-					v = checkReach(o.Reach, r.weak, opts, idx)
-					seen[key] = v
-					vacChecked++
-					if v == "sat" {
-						vacOK++
-					}
+				j := byKey[key]
+				if j == nil {
+					j = &rjob{r: r, reach: o.Reach}
+					byKey[key] = j
+					rjobs = append(rjobs, j)
 				}
-				if v == "unsat" {
+				j.obls = append(j.obls, o)
+			}
+		}
+		ropts := opts
+		ropts.timeoutS = 3
+		var wg sync.WaitGroup
+		sem := make(chan struct{}, runtime.NumCPU())
+		for i, j := range rjobs {
+			wg.Add(1)
+			sem <- struct{}{}
+			go func(i int, j *rjob) {
+				defer wg.Done()
+				defer func() { <-sem }()
+				j.v = checkReach(j.reach, j.r.weak, ropts, idx+1+i)
+			}(i, j)
+		}
+		wg.Wait()
+		for _, j := range rjobs {
+			vacChecked++
+			if j.v == "sat" {
+				vacOK++
+			}
+			if j.v == "unsat" {
+				for _, o := range j.obls {
 					o.Vacuous = true
 					vacuous = append(vacuous, o.Name)
 				}
